@@ -622,7 +622,7 @@ def kinds(tier):
     ]
 
 
-REGISTERED = False
+REGISTERED = True
 LEVEL_TEXT = ("Random operation sequences against a reference model: every "
               "step's full observation (versioned paths, kinds, texts, exec "
               "bits, file ids, status against the basis, unknowns, directory "
